@@ -6,7 +6,10 @@
 //	   round, in turn through graphql.Do, PlanCache.Get + ExecutePlan (cached plans) and one PlanQuery'd plan per case
 //	   that is executed again and again;
 //	B. 10× in this process on FRESHLY BUILT schemas (orders frozen at schema construction show up here);
-//	C. once in each of 8 FRESH PROCESSES (the harness re-executes itself with --child; different map seeds).
+//	C. once in each of 8 FRESH PROCESSES (the harness re-executes itself with --child; different map seeds);
+//	D. (interleave.go) probe requests through shared plan caches (Normalize off/on, capacity 2/default) after random
+//	   prefixes of near misses (one default value / literal / directive / alias / argument order / operation name /
+//	   fragment body changed): every answer must equal the one graphql.Do gives from scratch.
 //
 // Observables: json.Marshal of the *graphql.Result (bytes), json.Marshal of ValidateDocument(...).Errors (bytes), the
 // first result of a subscription. All must be byte-identical across A, B and C. There is no Lean driver: the
@@ -506,10 +509,30 @@ func main() {
 	specs, cases := buildCases(run.Seed, run.Thorough())
 	if run.ReplayIn != "" {
 		var rp struct {
-			Case caseT `json:"case"`
+			Case       caseT `json:"case"`
+			Interleave *iseq `json:"interleave"`
 		}
 		if err := hx.LoadReplay(run.ReplayIn, &rp); err != nil {
 			run.CheckError("cannot load replay: " + err.Error())
+			run.Finish()
+			return
+		}
+		if rp.Interleave != nil {
+			// replay of a phase-D sequence: fresh schema, fresh cache, the recorded order
+			e := newEnv(specs)
+			s, _, err := e.schema(&caseT{Schema: 0, Mode: rp.Interleave.Mode})
+			if err != nil {
+				run.CheckError("schema: " + err.Error())
+			} else {
+				st := &interleaveStats{}
+				note, want, got, known, at := runSequence(s, *rp.Interleave, st)
+				run.Case("replay", true, nil)
+				if known {
+					run.KnownFinding(classKeepsFirstPositions, note)
+				} else if note != "" {
+					run.Violation(note, map[string]interface{}{"interleave": rp.Interleave, "failing_step": at, "expected_by_Do": want, "got_through_cache": got}, false)
+				}
+			}
 			run.Finish()
 			return
 		}
@@ -631,6 +654,35 @@ func main() {
 			compare(&cases[i], fmt.Sprintf("B(fresh schema %d, same process)", rep), e.run(&cases[i], pathDo))
 		}
 	}
+	// ---- D. history independence through shared plan caches: probe after near misses (interleave.go)
+	ist := &interleaveStats{}
+	if *only == "" {
+		for _, sq := range mkSequences(run.Seed, run.N(60, 1500)) {
+			if run.TooManyViolations() {
+				break
+			}
+			sq := sq
+			s, _, err := shared.schema(&caseT{Schema: 0, Mode: sq.Mode})
+			if err != nil {
+				run.CheckError("schema: " + err.Error())
+				break
+			}
+			note, want, got, known, at := runSequence(s, sq, ist)
+			ist.probes++
+			run.Tag("kind=interleave")
+			run.Tag(fmt.Sprintf("interleave:normalize=%v", sq.Normalize))
+			run.Case(fmt.Sprintf("interleave|%s|%v|%d|%s|%s|%d", sq.Family, sq.Normalize, sq.Capacity, sq.Mode, sq.Probe.Query, len(sq.Steps)), len(sq.Steps) >= 3,
+				map[string]interface{}{"phase": "D", "probe": sq.Probe.Query, "normalize": sq.Normalize, "steps": len(sq.Steps)})
+			switch {
+			case known:
+				run.Tag("interleave:known=" + classKeepsFirstPositions)
+				run.KnownFinding(classKeepsFirstPositions, "through a Normalize:true plan cache a request's error locations are those of an earlier layout/literal variant that populated the shared entry (data, messages, paths equal)")
+			case note != "":
+				run.Violation(note, map[string]interface{}{"interleave": sq, "failing_step": at, "expected_by_Do": want, "got_through_cache": got}, false)
+			}
+		}
+	}
+
 	// ---- C. compare what the fresh processes (started before phase A) observed
 	wg.Wait()
 	for p, co := range childOuts {
@@ -673,8 +725,10 @@ func main() {
 		key := fmt.Sprintf("%s|%s|%x|%s", specs[c.Schema].Name, c.Mode, h[:8], c.Op)
 		run.Case(key, len(o.Do) > 2 && class != "fault", map[string]interface{}{"id": c.ID, "query": c.Query[:min(len(c.Query), 300)], "result_class": class, "do": o.Do[:min(len(o.Do), 300)]})
 	}
-	run.Res.Rule = fmt.Sprintf("a case is one (schema, resolver-world mode, request); it counts as non-trivial when the request completed with data or errors; every case was executed %d× on one shared schema value interleaved with all others (in turn graphql.Do, PlanCache.Get+ExecutePlan, and re-execution of one prepared plan), %d× on freshly built schemas in the same process and once in each of %d fresh processes; both json.Marshal(result) and json.Marshal(ValidateDocument(...).Errors) must be byte-identical throughout; distinctness by (schema, mode, query, operation)", reps, freshReps, procs)
-	run.Res.Evaluations = len(cases) * (reps + freshReps + procs) // every execution of the real code is compared
+	run.Res.Rule = fmt.Sprintf("a case is one (schema, resolver-world mode, request); it counts as non-trivial when the request completed with data or errors; every case was executed %d× on one shared schema value interleaved with all others (in turn graphql.Do, PlanCache.Get+ExecutePlan, and re-execution of one prepared plan), %d× on freshly built schemas in the same process and once in each of %d fresh processes; both json.Marshal(result) and json.Marshal(ValidateDocument(...).Errors) must be byte-identical throughout; distinctness by (schema, mode, query, operation); phase D: a sequence = a probe request answered through one shared PlanCache after 1-6 near-miss requests (exactly one default value / literal / directive / alias / argument order / operation name / fragment body changed), every probe answer byte-identical to graphql.Do's", reps, freshReps, procs)
+	run.Res.Evaluations = len(cases)*(reps+freshReps+procs) + ist.executions // every execution of the real code is compared
+	run.Res.Extra["interleave_sequences"] = ist.probes
+	run.Res.Extra["interleave_executions"] = ist.executions
 	run.Res.Extra["cases"] = len(cases)
 	run.Res.Extra["executions_per_case"] = reps + freshReps + procs
 	run.Res.Extra["schemas"] = len(specs)
